@@ -71,6 +71,7 @@ type Worker struct {
 	caseStart time.Time
 	inv       *Inventory
 	K         int
+	stop      bool
 }
 
 func (w *Worker) addNontrivial(h uint64) {
